@@ -15,4 +15,10 @@ var checks = map[string]check{
 		Floors: map[string]int64{"c06.sessions": 100, "c06.duplicate_party_sessions": 5}},
 	"C12": {ID: "C12", Level: "exploration", Units: []unit{u("hcore", "c12", 12, 16), u("hcore", "c12silent", 2, 4)},
 		Floors: map[string]int64{"c12.ops": 300, "c12.held_windows": 20, "c12silent.reuse_sessions": 2}},
+	"C13": {ID: "C13", Level: "exploration", Units: []unit{u("hcore", "c13sess", 10, 16)},
+		Floors: map[string]int64{"c13sess.sessions_with_large_ids": 50}},
+	"C07": {ID: "C07", Level: "exploration", Units: []unit{u("hcore", "c07honest", 8, 16), u("hcore", "c07byz", 8, 16)},
+		Floors: map[string]int64{"c07honest.completions": 200, "c07byz.honest_completions_under_attack": 40, "c07byz.byz_sessions": 50}},
+	"C10": {ID: "C10", Level: "exploration", Units: []unit{u("hcore", "c07byz", 8, 16)},
+		Floors: map[string]int64{"c07byz.byz_sessions": 50}},
 }
